@@ -13,6 +13,7 @@ import numpy as np
 from vmon import core, gen, contracts
 from vmon import refmodel as rm
 
+ANCHORS = ['evo/core/trajectory.py', 'evo/core/geometry.py', 'evo/main_ape.py', 'evo/main_rpe.py']
 LEVEL = "exploration"
 SHARDS = {"quick": 8, "thorough": 16}
 RULE = ("synchronized trajectory pairs (ref from class generators; est = similarity(ref) + noise "
